@@ -1072,4 +1072,28 @@ pub mod verif_hooks {
             .map(|(i, p)| (i.glyph_id, i.cluster, p.x_advance))
             .collect()
     }
+
+    /// Runs the private `propagate_flags` pass of `shape_internal` on an injected buffer.
+    pub fn propagate_flags(buffer: &mut hb_buffer_t) {
+        super::propagate_flags(buffer)
+    }
+
+    /// `glyph_flag::*` as this file sees them, and the scratch flag that gates `propagate_flags`.
+    pub fn glyph_flag_constants() -> [(&'static str, u32); 5] {
+        [
+            ("UNSAFE_TO_BREAK", UNSAFE_TO_BREAK),
+            ("UNSAFE_TO_CONCAT", UNSAFE_TO_CONCAT),
+            ("SAFE_TO_INSERT_TATWEEL", SAFE_TO_INSERT_TATWEEL),
+            ("DEFINED", glyph_flag::DEFINED),
+            ("SCRATCH_HAS_GLYPH_FLAGS", HB_BUFFER_SCRATCH_FLAG_HAS_GLYPH_FLAGS),
+        ]
+    }
+
+    /// Every named constant of `BufferFlags` (in declaration order, duplicates included).
+    pub fn buffer_flag_constants() -> alloc::vec::Vec<(&'static str, u32)> {
+        <BufferFlags as bitflags::Flags>::FLAGS
+            .iter()
+            .map(|f| (f.name(), f.value().bits()))
+            .collect()
+    }
 }
